@@ -3,15 +3,16 @@ from core import Fn, Target, VC
 TYPES = [
     (r'^nano::tensor2d_t$|tensor_t<nano::tensor_vector_storage_t, double, 2', 'struct nv_tensor2d'),
     (r'^nano::indices_t$|tensor_t<nano::tensor_vector_storage_t, long, 1', 'struct nv_indices'),
-    (r'^nano::rwlearners_t$|std::vector<std::unique_ptr<nano::wlearner_t', 'struct nv_vec'),
+    (r'^nano::rwlearners_t$|^std::vector<std::unique_ptr<nano::wlearner_t(, std::default_delete<nano::wlearner_t>)?>(, std::allocator<[^|]*>)?>$', 'struct nv_vec'),
 ]
 
 
 RTYPES = [(r'^nano::tensor2d_t$|tensor_t<nano::tensor_vector_storage_t, double, 2', 'struct nv_tensor2d'),
           (r'^nano::indices_t$|tensor_t<nano::tensor_vector_storage_t, long, 1', 'struct nv_indices'),
-          (r'^nano::rwlearners_t$|std::vector<std::unique_ptr<nano::wlearner_t', 'struct nv_vec'),
+          (r'^nano::rwlearners_t$|^std::vector<std::unique_ptr<nano::wlearner_t(, std::default_delete<nano::wlearner_t>)?>(, std::allocator<[^|]*>)?>$', 'struct nv_vec'),
           (r'^nano::solver_state_t$', 'struct nv_state'), (r'^nano::solver_status$', 'int32_t'),
           (r'__normal_iterator<\s*(const )?std::unique_ptr<nano::wlearner_t', 'int64_t'),
+          (r'std::vector<std::unique_ptr<nano::wlearner_t.*::(const_iterator|iterator|difference_type|size_type)$', 'int64_t'),
           (r'tensor_t<nano::tensor_(c|m)(map|array)_storage_t, double, 2', 'struct nv_slice2')]
 
 
@@ -20,7 +21,7 @@ def erase_note_hook(P, n):
     return None
 
 
-def boost_targets():
+def boost_fns():
     nparams = lambda k: (lambda d: len([c for c in d['inner'] if c['kind'] == 'ParmVarDecl']) == k)
     calls = [(r'^mean_error\|', 'nv_mean_any'), (r'^mean_loss\|', 'nv_mean_any'),
              (r'^operator\(\)\|.*tensor_vector_storage_t, double, 2', '(*nv_t2_at({&0}, {1}, {2}))'),
@@ -37,24 +38,299 @@ def boost_targets():
     kw = dict(self_struct='struct nv_result', types=RTYPES, calls=calls, members=members,
               opaque=[r'unique_ptr<nano::wlearner_t', r'rwlearner_t'])
     u3 = lambda: Fn('result_update3', 'src/gboost/result.cpp', 'update', flt='result_t::update', select=nparams(3), **kw)
-    u4 = Fn('result_update4', 'src/gboost/result.cpp', 'update', flt='result_t::update', select=nparams(4), **kw)
-    dn = Fn('result_done', 'src/gboost/result.cpp', 'done', flt='result_t::done', **kw)
+    u4 = lambda: Fn('result_update4', 'src/gboost/result.cpp', 'update', flt='result_t::update', select=nparams(4), **kw)
+    dn = lambda: Fn('result_done', 'src/gboost/result.cpp', 'done', flt='result_t::done', **kw)
+    return u3, u4, dn
+
+
+def boost_targets():
+    u3, u4, dn = boost_fns()
     H = 'specs/C11/boost.h'
-    return [Target('result_update3', [u3()], H), Target('result_update4', [u4, u3()], H, replace=['result_update3']),
-            Target('result_done', [dn], H)]
+    return [Target('result_update3', [u3()], H), Target('result_update4', [u4(), u3()], H, replace=['result_update3']),
+            Target('result_done', [dn()], H)]
 
 
-def build(tier):
-    done = Fn('early_stopping_done', 'src/gboost/early_stopping.cpp', 'done', flt='early_stopping_t::done',
+# ------------------------------------------------------------------------------------------------ ::fit (round loop)
+NPARAMS = lambda k: (lambda d: len([c for c in d['inner'] if c['kind'] == 'ParmVarDecl']) == k)
+T2 = r'^nano::tensor2d_t$|^nano::tensor_t<nano::tensor_vector_storage_t, double, 2'
+IX = r'^nano::indices_t$|^nano::tensor_t<nano::tensor_vector_storage_t, long, 1'
+FTYPES = [(r'^std::tuple<nano::gboost::result_t, ', 'struct nv_fit_ret'),
+          (r'__normal_iterator<\s*(const )?std::unique_ptr<nano::wlearner_t|^std::vector<std::unique_ptr<nano::wlearner_t>>::(const_)?iterator$', 'int64_t'), (r'^std::tuple<double>$', 'struct nv_tuple_f64'),
+          (r'^std::tuple_element<0, std::tuple<double>>::type$', 'double'),
+          (T2, 'struct nv_tensor2d'), (IX, 'struct nv_indices'),
+          (r'^nano::gboost::result_t$', 'struct nv_result'), (r'^nano::gboost::early_stopping_t$', 'struct nv_early_stopping'),
+          (r'^nano::rwlearners_t$|^std::vector<std::unique_ptr<nano::wlearner_t', 'struct nv_vec'),
+          (r'^nano::solver_state_t$', 'struct nv_state'), (r'^nano::solver_status$', 'int32_t'),
+          (r'^nano::gboost_(wscale|subsample|shrinkage)$', 'int32_t'),
+          (r'^nano::indices_cmap_t$|^nano::tensor_t<nano::tensor_carray_storage_t, long, 1', 'struct nv_indices'),
+          (r'^nano::tensor_t<nano::tensor_(c|m)(map|array)_storage_t, double, 1', 'struct nv_row')]
+# everything numeric: datasets, iterators, samplers, loss / solver / weak learners, outputs, gradients, clusters
+FOPAQUE = [r'^nano::(configurable_t|dataset_t|loss_t|solver_t|logger_t|wlearner_t|cluster_t|targets_iterator_t|sampler_t)$',
+           r'^nano::gboost::(sampler_t|grads_function_t|bias_function_t|scale_function_t)$', r'^nano::function_t$',
+           r'^nano::(tensor1d_t|tensor4d_t|vector_t|tensor1d_cmap_t|rwlearner_t)$', r'^nano::tensor_t<', r'^Eigen::', r'^std::unique_ptr<nano::wlearner_t',
+           r'__normal_iterator<\s*(const )?std::unique_ptr<nano::wlearner_t', r'^nano::tensor_base_t<', r'^std::array<long', r'^nano::tensor_dims_t<']
+FCALLS = [(r'^epsilon\|double \(\)', '(2.220446049250313e-16)'), (r'^max\|double \(\)', '(1.7976931348623157e308)'),
+          (r'^arange\|', 'nv_arange({0}, {1})'), (r'^no_fit_score\|', 'nv_nondet_double()'), (r'^evaluate\|', 'nv_evaluate({&3})'),
+          (r'^ctor\|nano::tensor_t<nano::tensor_vector_storage_t, double, 2>\|void \((int|long), (int|long)\)', 'nv_t2_make({0}, {1})'),
+          (r'^ctor\|nano::gboost::result_t\|', 'nv_result_make({0}, {1}, {2}, {3})'),
+          (r'^ctor\|nano::gboost::early_stopping_t\|void \(nano::tensor2d_t\)', 'nv_monitor_make({0})'),
+          (r'^selected\|', 'model_selected'),
+          (r'^ctor\|nano::tensor_t<nano::tensor_carray_storage_t, long, 1>\|void \(const tensor_t<nano::tensor_vector_storage_t, long, 1', '{0}'),
+          (r'^operator!=\|.*__normal_iterator', '({0} != {1})'), (r'^operator\+\+\|.*__normal_iterator', '(++{0})'), (r'^move\|', '{0}'),
+          (r'^make_tuple\|.*result_t', '(struct nv_fit_ret){ {0}, {1}, {2} }')]
+FMEMBERS = [(r'^minimize\|nano::solver_t', 'nv_solver_minimize()'),
+            (r'^x\|nano::solver_state_t', 'nv_opaque_value()'),
+            (r'^size\|std::vector<std::unique_ptr<nano::wlearner_t', 'nv_vec_size'),
+            (r'^begin\|std::vector<std::unique_ptr<nano::wlearner_t', 'nv_vec_begin'), (r'^end\|std::vector<std::unique_ptr<nano::wlearner_t', 'nv_vec_end'),
+            (r'^size\|.*(indices_t|tensor_vector_storage_t, long, 1|tensor_base_t<long, 1)', 'nv_indices_size'),
+            (r'^update\|nano::gboost::result_t\|#3', 'nv_loop_update3'), (r'^update\|nano::gboost::result_t\|#4', 'nv_loop_update4'),
+            (r'^done\|nano::gboost::result_t', 'result_done'), (r'^done\|nano::gboost::early_stopping_t', 'nv_monitor_done'),
+            (r'^round\|nano::gboost::early_stopping_t', 'early_stopping_round'), (r'^value\|nano::gboost::early_stopping_t', 'early_stopping_value'),
+            (r'^values\|nano::gboost::early_stopping_t', 'early_stopping_values'),
+            (r'^tensor\|.*tensor_vector_storage_t, double, 2.*#1', 'nv_t2_row'),
+            (r'^indexed\|.*tensor_(c|m)(map|array)_storage_t, double, 1', 'nv_row_indexed({*self}, {&0}, {1})')]
+
+
+def fit_fns():
+    import hooks
+    kw = dict(types=FTYPES, calls=FCALLS, members=FMEMBERS, opaque=FOPAQUE, hooks=[hooks.param_hook()], aggregates=['struct nv_fit_ret'])
+    ES, RS = 'src/gboost/early_stopping.cpp', 'src/gboost/result.cpp'
+    mon = dict(kw, self_struct='struct nv_early_stopping')
+    return dict(
+        fit=Fn('gboost_fit', 'src/gboost/model.cpp', 'fit', flt='fit', select=NPARAMS(9), ret='struct nv_fit_ret', **kw),
+        selected=Fn('model_selected', 'src/gboost/model.cpp', 'selected', flt='selected', **kw),
+        rctor=Fn('result_ctor', RS, 'result_t', flt='result_t::result_t', select=NPARAMS(4), **dict(kw, self_struct='struct nv_result')),
+        ector=Fn('early_stopping_ctor', ES, 'early_stopping_t', flt='early_stopping_t::early_stopping_t', select=NPARAMS(1), **mon),
+        eround=Fn('early_stopping_round', ES, 'round', flt='early_stopping_t::round', **mon),
+        evalue=Fn('early_stopping_value', ES, 'value', flt='early_stopping_t::value', **mon),
+        evalues=Fn('early_stopping_values', ES, 'values', flt='early_stopping_t::values', **mon))
+
+
+def fit_targets(done, boost):
+    F = 'specs/C11/fit.h'
+    f = fit_fns()
+    u3, u4, dn = boost
+    return [Target('model_selected', [fit_fns()['selected']], F),
+            Target('result_ctor', [fit_fns()['rctor']], F), Target('early_stopping_ctor', [fit_fns()['ector']], F),
+            Target('early_stopping_round', [fit_fns()['eround']], F), Target('early_stopping_value', [fit_fns()['evalue']], F),
+            Target('early_stopping_values', [fit_fns()['evalues']], F),
+            Target('gboost_fit', [f['fit'], f['selected'], f['rctor'], f['ector'], f['eround'], f['evalues'], done, u3, u4, dn], F,
+                   replace=['early_stopping_done', 'result_update3', 'result_update4', 'result_done'], cbmc_flags=['--object-bits', '9'])]
+
+
+# ------------------------------------------------------------------------------------------------ gboost_model_t::fit
+WL = r'std::unique_ptr<nano::wlearner_t'
+MTYPES = [(r'::difference_type$', 'int64_t'), (r'__normal_iterator<\s*(const )?' + WL + r'|^std::vector<' + WL + r'.*>::(const_)?iterator$', 'struct nv_it'),
+          (r'^(nano::)?ml::result_t$', 'struct nv_mlresult'), (r'^nano::gboost::result_t$', 'struct nv_fold_result'), (r'^std::any$', 'struct nv_any'),
+          (T2, 'struct nv_tensor2d'), (IX, 'struct nv_indices'),
+          (r'^nano::indices_cmap_t$|^nano::tensor_t<nano::tensor_carray_storage_t, long, 1', 'struct nv_indices'),
+          (r'^nano::(tensor1d_t|vector_t)$|^nano::tensor_t<nano::tensor_vector_storage_t, double, 1', 'struct nv_bias'),
+          (r'^Eigen::(MatrixBase<)?Eigen::Map<(const )?Eigen::Matrix<double, -1, 1|^Eigen::Map<(const )?Eigen::Matrix<double, -1, 1', 'struct nv_biasv'),
+          (r'^nano::tensor4d_t$|^nano::tensor_t<nano::tensor_vector_storage_t, double, 4', 'struct nv_outputs'),
+          (r'^nano::targets_iterator_t$', 'struct nv_titer'),
+          (r'^nano::rwlearners_t$|^std::vector<' + WL, 'struct nv_wlist'), (r'^nano::rwlearner_t$|^' + WL + r'|^nano::wlearner_t$', 'struct nv_wl'),
+          (r'^nano::tensor_t<nano::tensor_(c|m)(map|array)_storage_t, double, 1', 'struct nv_row')]
+MOPAQUE = [r'^nano::(dataset_t|loss_t|logger_t|param_spaces_t)$', r'^(nano::)?ml::params_t$', r'^std::vector<nano::param_space_t', r'^nano::tensor_t<', r'^Eigen::',
+           r'^std::array<long', r'^nano::tensor_dims_t<', r'^nano::tensor_base_t<']
+MCALLS = [(r'^tune\|', 'nv_tune({&1})!'), (r'^arange\|', 'nv_arange({0}, {1})'), (r'^evaluate\|', 'nv_evaluate({&0}, {&2}, {&3})'),
+          (r'^ctor\|nano::tensor_t<nano::tensor_vector_storage_t, double, 2>\|void \((int|long), (int|long)\)', 'nv_t2_make({0}, {1})'),
+          (r'^ctor\|nano::tensor_t<nano::tensor_carray_storage_t, long, 1>\|void \(const tensor_t<nano::tensor_vector_storage_t, long, 1', '{0}'),
+          (r'^ctor\|nano::targets_iterator_t\|', 'nv_titer_make({&1})'),
+          (r'^make_full_tensor\|', 'nv_bias_full({1})'), (r'^operator=\|.*\|nano::tensor_t<nano::tensor_vector_storage_t, double, 1>\|#2', '({0} = {1})'),
+          (r'^any_cast\|', 'nv_any_cast({0})'), (r'^operator\+=\|.*\|Eigen::MatrixBase<Eigen::Map<Eigen::Matrix<double, -1, 1', 'nv_biasv_add({0}, {1})'),
+          (r'^operator\*=\|.*\|Eigen::(Dense|Matrix)Base<Eigen::Map<Eigen::Matrix<double, -1, 1', 'nv_biasv_scale({0}, {1})'),
+          (r'^for_each\|', 'nv_for_each_clone({0}, {1}, self)'), (r'^merge\|', 'nv_wlist_merge({&0})'), (r'^make_vector\|', 'nv_vec1_make({0})'),
+          (r'^operator!=\|.*__normal_iterator', '({0}.pos != {1}.pos)'), (r'^operator\+\+\|.*__normal_iterator', '(++{0}.pos)'),
+          (r'^operator\*\|.*__normal_iterator', '(*nv_it_deref({0}))'), (r'^operator\+\|.*__normal_iterator', 'nv_it_plus({0}, {1})'), (r'^operator->\|.*unique_ptr', '(&{0})'),
+          (r'^selected\|', 'model_selected'), (r'^move\|', '{0}')]
+MMEMBERS = [(r'^empty\|std::vector<' + WL, 'nv_vec_empty'), (r'^clear\|std::vector<' + WL, 'nv_wlist_clear'),
+            (r'^begin\|std::vector<' + WL, 'nv_wlist_begin'), (r'^end\|std::vector<' + WL, 'nv_wlist_end'),
+            (r'^emplace_back\|std::vector<' + WL, 'nv_wlist_push({self}, {0})'),
+            (r'^optimum_trial\|nano::ml::result_t', 'nv_mlresult_optimum'), (r'^folds\|nano::ml::result_t', 'nv_mlresult_folds'),
+            (r'^trials\|nano::ml::result_t', 'nv_mlresult_trials'), (r'^extra\|nano::ml::result_t\|#2', 'nv_extra'),
+            (r'^store\|nano::ml::result_t\|#2', 'nv_store_final({self}, {0})'),
+            (r'^vector\|nano::tensor_t<nano::tensor_vector_storage_t, double, 1', 'nv_bias_vector'),
+            (r'^clone\|nano::(clonable_t<nano::)?wlearner_t', 'nv_wl_clone'), (r'^scale\|nano::wlearner_t', 'nv_wl_scale'),
+            (r'^fit_dataset\|', 'nv_learner_fit_dataset({self})'), (r'^predict\|.*#2', 'nv_predict({self}, {1})'),
+            (r'^evaluate\|.*#3', 'nv_learner_evaluate({self}, {1})'),
+            (r'^size\|.*(indices_t|tensor_vector_storage_t, long, 1|tensor_base_t<long, 1)', 'nv_indices_size'),
+            (r'^log\|nano::ml::params_t', '@drop'), (r'^(batch|scaling)\|nano::targets_iterator_t', '@drop'),
+            (r'^tensor\|.*tensor_vector_storage_t, double, 2.*#1', 'nv_t2_row'),
+            (r'^indexed\|.*tensor_(c|m)(map|array)_storage_t, double, 1', 'nv_row_indexed({*self}, {&0}, {1})')]
+
+
+def average_fns():
+    import hooks
+    kw = dict(types=MTYPES, calls=MCALLS, members=MMEMBERS, opaque=MOPAQUE, hooks=[hooks.param_hook()], self_struct='struct nv_gmodel')
+    M = 'src/gboost/model.cpp'
+    return dict(fit=Fn('gmodel_fit', M, 'fit', flt='gboost_model_t::fit', select=NPARAMS(4), ret='struct nv_mlresult', **kw),
+                clone=Fn('gmodel_fit_clone', M, 'fit', flt='gboost_model_t::fit', select=NPARAMS(4), lambda_index=1, captures=True, **kw),
+                selected=Fn('model_selected', M, 'selected', flt='selected', **dict(kw, self_struct=None)))
+
+
+def average_targets():
+    A = 'specs/C11/average.h'
+    f = average_fns()
+    return [Target('gmodel_fit_clone', [average_fns()['clone']], A),
+            Target('gmodel_fit', [f['fit'], f['clone'], f['selected']], A, replace=['gmodel_fit_clone'])]
+
+
+# ------------------------------------------------------------------------------------------------ mean_error / mean_loss
+def accumulate_hook(P, n):
+    """std::accumulate(first, last, init, <lambda variable of this function>) -> nv_accumulate(first, last, init, <its one capture>):
+    the operation must be the function's own lambda (extracted as util_opsum), which captures exactly errors_losses by reference"""
+    from cxx2c import unwrap, Unsupported
+    if n.get('kind') != 'CallExpr' or unwrap(n['inner'][0]).get('referencedDecl', {}).get('name') != 'accumulate':
+        return None
+    args = n['inner'][1:]
+    op = unwrap(args[3]) if len(args) == 4 else {}
+    while op.get('kind') == 'CXXConstructExpr' and len(op.get('inner', [])) == 1:
+        op = unwrap(op['inner'][0])
+    if op.get('kind') != 'DeclRefExpr' or op['referencedDecl'].get('name') != 'opsum':
+        raise Unsupported('std::accumulate whose operation is not the lambda variable opsum')
+    P.note('accumulate(first, last, init, opsum) -> nv_accumulate')
+    return f'nv_accumulate({P.expr(args[0])}, {P.expr(args[1])}, {P.expr(args[2])}, errors_losses)'
+
+
+def util_targets():
+    U = 'specs/C11/util.h'
+    types = [(T2, 'struct nv_tensor2d'), (IX, 'struct nv_ixs')]
+    calls = [(r'^begin\|', 'nv_ix_begin({&0})'), (r'^end\|', 'nv_ix_end({&0})'), (r'^max\|const long &', 'nv_imax({0}, {1})'),
+             (r'^operator\(\)\|.*tensor_vector_storage_t, double, 2', 'nv_t2_get({&0}, {1}, {2})')]
+    members = [(r'^size\|.*(indices_t|tensor_vector_storage_t, long, 1|tensor_base_t<long, 1)', 'nv_ix_size')]
+    kw = dict(types=types, calls=calls, members=members, hooks=[accumulate_hook])
+    out = []
+    for name, row in (('mean_error', 0), ('mean_loss', 1)):
+        fn = lambda: Fn('util_mean', 'src/gboost/util.cpp', name, flt='gboost::' + name, **kw)
+        lam = lambda: Fn('util_opsum', 'src/gboost/util.cpp', name, flt='gboost::' + name, lambda_index=0, captures=True, **kw)
+        out.append(Target(name + '_opsum', [lam()], U, defines=[f'NV_ROW={row}']))
+        out.append(Target(name, [fn(), lam()], U, replace=['util_opsum'], defines=[f'NV_ROW={row}']))
+    return out
+
+
+def store_targets():
+    S = 'specs/C11/store.h'
+    kw = dict(self_struct='struct nv_mlresult', types=[(T2, 'struct nv_tensor2d'), (r'^std::any$', 'struct nv_any'), (r'^nano::ml::stats_t$', 'struct nv_stats'),
+                                                       (r'^nano::ml::value_type$', 'int32_t'),
+                                                       (r'^nano::tensor_t<nano::tensor_(c|m)(map|array)_storage_t, double, 1', 'struct nv_row')],
+              calls=[(r'^store_stats\|', 'nv_store_stats({0}, {1}, self)'), (r'^load_stats\|', 'nv_load_stats({0})'), (r'^move\|', '{0}'),
+                     (r'^operator=\|.*std::any', '({0} = {1})')],
+              members=[(r'^tensor\|.*tensor_vector_storage_t, double, 2.*#1', 'nv_t2_row')])
+    R = 'src/machine/result.cpp'
+    return [Target('mlresult_store', [Fn('mlresult_store', R, 'store', flt='nano::ml::result_t::store', select=NPARAMS(2), **kw)], S),
+            Target('mlresult_stats', [Fn('mlresult_stats', R, 'stats', flt='nano::ml::result_t::stats', select=NPARAMS(1), **kw)], S)]
+
+
+# ------------------------------------------------------------------------------------------------ try_merge (sum preservation of merge)
+def dyn_cast_hook(P, n):
+    """dynamic_cast<const K*>(p) -> nv_dyn_cast(p, NV_KIND_<K>) for the weak-learner kinds that merge coefficient-wise"""
+    from cxx2c import qual
+    if n.get('kind') != 'CXXDynamicCastExpr':
+        return None
+    q = qual(n['type'])
+    kind = 'NV_KIND_TABLE' if 'table_wlearner_t' in q else 'NV_KIND_AFFINE' if 'affine_wlearner_t' in q else None
+    if kind is None:
+        if 'wlearner_t' not in q:
+            return None
+        kind = 'NV_KIND_ANY'      # a base class of both kinds: every learner of the model qualifies
+    P.note(f'dynamic_cast<{q}> -> nv_dyn_cast(.., {kind})')
+    return f'nv_dyn_cast({P.expr(n["inner"][0])}, {kind})'
+
+
+def merge_targets():
+    MH = 'specs/C11/merge.h'
+    WLK = r'^nano::(wlearner_t|single_feature_wlearner_t|table_wlearner_t|affine_wlearner_t)$'
+    kw = dict(self_struct='struct nv_wl', hooks=[dyn_cast_hook],
+              types=[(WLK, 'struct nv_wl'), (r'^nano::rwlearner_t$|^std::unique_ptr<nano::wlearner_t', 'struct nv_rwl'),
+                     (r'^nano::tensor4d_t$|^nano::tensor_t<nano::tensor_vector_storage_t, double, 4', 'struct nv_t4'),
+                     (r'^nano::(hashes_t|indices_t)$|^nano::tensor_t<nano::tensor_vector_storage_t, (unsigned long|long), 1', 'struct nv_tid'),
+                     (r'^Eigen::(MatrixBase<)?Eigen::Map<(const )?Eigen::Matrix<double, -1, 1|^Eigen::Map<(const )?Eigen::Matrix<double, -1, 1', 'struct nv_t4v'),
+                     (r'^nano::tensor_dims_t<4>$|^std::array<long, 4', 'uint64_t')],
+              calls=[(r'^operator==\|.*std::array<long, 4', '({0} == {1})'), (r'^operator==\|.*\|nano::tensor_t<nano::tensor_vector_storage_t, (unsigned long|long), 1', 'nv_tid_eq({&0}, {&1})'),
+                     (r'^operator\+=\|.*\|Eigen::MatrixBase<Eigen::Map<Eigen::Matrix<double, -1, 1', 'nv_t4v_add({0}, {1})')],
+              members=[(r'^get\|std::unique_ptr<nano::wlearner_t', 'nv_rwl_get'), (r'^dims\|nano::tensor_t<nano::tensor_vector_storage_t, double, 4|^dims\|nano::tensor_base_t<double, 4', 'nv_t4_dims({self})'),
+                       (r'^vector\|nano::tensor_t<nano::tensor_vector_storage_t, double, 4', 'nv_t4_vector'),
+                       (r'^size\|nano::tensor_t<nano::tensor_vector_storage_t, (unsigned long|long), 1|^size\|nano::tensor_base_t<(unsigned long|long), 1', 'nv_tid_size'),
+                       (r'^hashes\|', 'table_hashes'), (r'^hash2tables\|', 'table_hash2tables'), (r'^feature\|', 'sfw_feature'), (r'^tables\|', 'sfw_tables'),
+                       (r'^do_try_merge\|', 'nv_do_try_merge')])
+    T, A, S = 'src/wlearner/table.cpp', 'src/wlearner/affine.cpp', 'src/wlearner/single.cpp'
+    dtm = lambda: Fn('sfw_do_try_merge', S, 'do_try_merge', flt='single_feature_wlearner_t::do_try_merge', **kw)
+    acc = lambda tu: [Fn('sfw_feature', tu, 'feature', flt='single_feature_wlearner_t::feature', **kw), Fn('sfw_tables', tu, 'tables', flt='single_feature_wlearner_t::tables', **kw)]
+    tacc = lambda: [Fn('table_hashes', T, 'hashes', flt='table_wlearner_t::hashes', **kw), Fn('table_hash2tables', T, 'hash2tables', flt='table_wlearner_t::hash2tables', **kw)]
+    out = [Target('sfw_do_try_merge', [dtm()], MH)]
+    out += [Target(f.cname, [f], MH) for f in acc(S) + tacc()]
+    out.append(Target('table_try_merge', [Fn('table_try_merge', T, 'try_merge', flt='table_wlearner_t::try_merge', **kw), dtm()] + acc(T) + tacc(), MH, replace=['sfw_do_try_merge']))
+    out.append(Target('affine_try_merge', [Fn('affine_try_merge', A, 'try_merge', flt='affine_wlearner_t::try_merge', **kw), dtm()] + acc(A), MH, replace=['sfw_do_try_merge']))
+    return out
+
+
+def done_fn():
+    return Fn('early_stopping_done', 'src/gboost/early_stopping.cpp', 'done', flt='early_stopping_t::done',
               self_struct='struct nv_early_stopping', types=TYPES,
               calls=[(r'^mean_error\|', 'nv_mean_error'), (r'^operator=\|.*tensor_vector_storage_t, double, 2', 'nv_tensor2d_assign')],
               members=[(r'^size\|.*std::vector', 'nv_vec_size'), (r'^size\|.*(indices_t|tensor_vector_storage_t, long, 1|tensor_base_t<long, 1)', 'nv_indices_size')])
-    targets = [Target('early_stopping_done', [done], 'specs/C11/early_stopping.h')]
+
+
+def build(tier):
+    targets = [Target('early_stopping_done', [done_fn()], 'specs/C11/early_stopping.h')]
     targets += boost_targets()
+    targets += fit_targets(done_fn(), [f() for f in boost_fns()])
+    targets += average_targets()
+    targets += util_targets() + store_targets() + merge_targets()
     return {
         'targets': targets, 'vcs': [],
-        'decided': ['early-stopping monitor transition = specification, for every observation and prior state'],
-        'not_decided': ['statistics equal those recomputed from scratch by predicting (numeric equality through loss/predict)'],
-        'assumptions': ['gboost::mean_error is a deterministic function of (errors, samples) (assumed contract)'],
+        'decided': ['early-stopping monitor transition = specification, for every observation and prior state; constructor (round 0, value +max, given snapshot) and round() / value() / values() accessors',
+                    'gboost::result_t: constructor allocates a statistics row for every round 0..max_rounds, no learners; update(round, ..) stays inside m_statistics; done(round) keeps exactly `round` learners and round + 1 rows',
+                    '::fit round loop (src/gboost/model.cpp): #learners == round at the loop head; the monitor is consulted once before the first round and once per appended learner with the CURRENT learner list and the configured epsilon / patience, never after it has stopped; '
+                    'every update(round + 1, ..) writes the row of the learner count after the append, inside m_statistics; the early-exit learner (scaling failed) is appended without consulting the monitor and is never kept; '
+                    'result.done(optimum.round()) is called inside its precondition, so the returned fold model keeps exactly optimum.round() learners (before merging) and optimum.round() + 1 statistics rows; '
+                    'the returned per-sample values are the monitor snapshot (the values of the reported round) selected by the training resp. validation samples',
+                    '::selected(values, samples): row k of the result is row k of values gathered by samples, shape (2, #samples)',
+                    'gboost_model_t::fit fold averaging: bias = zero + bias of extra(optimum_trial, fold) for every fold exactly once, then times 1/folds once; m_wlearners = cleared + exactly one clone of every learner of every fold; '
+                    'after merging every learner scaled by 1/folds exactly once; the final statistics stored by fit_result.store are evaluated on predictions of the FINAL model and selected by the samples given to fit(), stored once',
+                    'gboost::mean_error / mean_loss: row 0 resp. 1, every listed sample exactly once in list order from 0.0, divided by max(#samples, 1)',
+                    'ml::result_t::store(values, extra) / stats(value): error row -> m_optims row 0, loss row -> row 1; errors read row 0, losses row 1',
+                    'try_merge step of wlearner::merge (sum preservation): do_try_merge adds the other tables exactly when feature and table dimensions agree, else changes nothing; '
+                    'table_wlearner_t / affine_wlearner_t::try_merge attempt it only with a learner of the same kind, its feature and its tables, and for look-up tables only with equal label hashes AND equal hash -> table mapping'],
+        'not_decided': ['statistics equal those recomputed from scratch by predicting (numeric equality through loss/predict)',
+                        'the linear-model side of the statement (linear_t::fit, src/linear/util.cpp)',
+                        'history lemma (induction over the history from the transition contract) is not machine-checked; the native replay enumerates histories up to length 4 instead'],
+        'assumptions': ['gboost::mean_error is a deterministic function of (errors, samples) (assumed contract)',
+                        'gboost parameters inside their registered domains: 10 <= max_rounds <= 10^6, 1 <= patience <= 1000 (gboost_model_t constructor; C19)',
+                        'erased numerics of ::fit / gboost_model_t::fit (datasets, iterators, samplers, loss, solver, weak learners, outputs, gradients, clusters) do not touch the modelled objects; '
+                        'gboost::evaluate overwrites `values` only; solver_t::minimize returns an arbitrary state; learner_t::fit_dataset touches the learner_t base only',
+                        'wlearner::merge never increases the number of learners and keeps an empty list empty (C10); wlearner_t::clone copies the learner',
+                        'ml::tune returns a result with trials() >= 1, 0 <= optimum_trial() < trials() (C13) and 1 <= folds() <= 1000; extra(trial, fold) holds the gboost::result_t the callback returned for (trial, fold) (C13)',
+                        'tensor contents are ghost identities in the try_merge targets: operator== on tensors / dims is equality of identities; m_tables.vector() += t adds t coefficient-wise (Eigen); the sum of two tables over the same hashes and mapping is the table of the sum of the functions',
+                        'std::for_each / std::accumulate apply the operation once to every element of [first, last) in order; tensor_t::indexed(indices, out) gathers out(i) = self(indices(i))',
+                        'every sample listed in the index lists handed to mean_error / mean_loss is a column of errors_losses (C12: splits of arange(0, samples)); index lists hold at most 2^31 - 1 samples',
+                        'a fold model holds at most 10^6 learners (gboost::max_rounds domain); m_optims of ml::result_t is (2, 12) (its constructor, specs/C13/result_ctor.h); store(values, ..) is given a (2, n) tensor (::selected, proved here)'],
         'trusted': [],
     }
+
+
+def replay(rp):
+    """early-stopping monitor: the counterexample of a refuted early_stopping_done obligation is one transition from an
+    arbitrary monitor state; natively the state is only reachable through a history, so the driver feeds ALL histories up
+    to length 4 over a 5-value alphabet (patience 1..4, with / without validation samples, plus random longer ones) to the
+    real early_stopping_t of the working tree and compares every answer, round(), value() and values() with a reference
+    monitor written from the property statement.  The first mismatching history is the concrete failing input."""
+    import os
+    import replaylib
+    from astload import REPO
+    out = {'reproduced': False, 'runs': []}
+    tgt = rp.get('target', '')
+    if 'early_stopping' not in tgt:
+        out['note'] = f'no native replay for target {tgt}: protocol-level counterexample (ghost identities / counters)'
+        return out
+    srcs = [os.path.join(REPO, 'src/gboost/early_stopping.cpp'), os.path.join(REPO, 'src/gboost/util.cpp')]
+    # only mean_error of util.cpp is needed: unreferenced functions (evaluate, tune_shrinkage and their dependencies) are discarded
+    exe = replaylib.build_header_only('replay/C11_replay.cpp', 'C11_replay', extra=srcs + ['-ffunction-sections', '-fdata-sections', '-Wl,--gc-sections'])
+    rc, so, se = replaylib.run_driver(exe, ['exhaustive', 4], timeout=600)
+    lines = so.strip().split('\n')
+    out['runs'].append({'mode': 'exhaustive', 'exit': rc, 'output': lines[:3] + lines[-1:]})
+    # exit 1: the real monitor disagrees with the property's reference monitor on a concrete history; negative: the real code crashed
+    out['reproduced'] = rc == 1 or rc < 0
+    if rc == 1 and lines:
+        out['failing_input'] = lines[0]
+    return out
